@@ -12,17 +12,20 @@ open Rpyc Rpyc.Vinegar
 /-! ### the statement -/
 
 /-- an exception record of a built-in class, as Python presents one: the class is the object `builtins.<name>`,
-`dir(val)` lists each name once and `args` among them -/
+`dir(val)` lists each name once and `args` among them, and nothing `dump` calls on it raises (its arguments can be
+serialized: every `repr()` and `getattr` works) -/
 def BuiltinRec (e : ExcRec) : Prop :=
   e.cls.kind = .builtin
     ∧ e.cls.modname = Gen.Vinegar.exceptionsModule
     ∧ argsCount e.dir = 1
     ∧ (e.dir.map (·.name)).Nodup
+    ∧ e.walkRaises = none
 
 /-- what the property demands of the object that reaches the requester's `except` clause.
 `cls`/`args`: same built-in class, arguments with everything brine cannot carry replaced by its repr.
 `attrs`: every public, immutable data attribute has the same value (extras are allowed).
-`tb`/`ver`: the remote traceback / version text when, and only when, the sender's switches allow — else the markers.
+`tb`/`ver`: the remote traceback / version text when, and only when, the sender's switches allow — else the markers
+(`tbShown`: the formatted text; the "unavailable" literal if the traceback module itself fails on this exception).
 A bare `StopIteration` (the marker path, `fastPath`) is held to class and arguments only: it arrives as a fresh
 `StopIteration()` whose class-level attributes the model does not describe and which carries no traceback. -/
 def Faithful (s : SendCfg) (e : ExcRec) (o : ExcObj) : Prop :=
@@ -31,7 +34,7 @@ def Faithful (s : SendCfg) (e : ExcRec) (o : ExcObj) : Prop :=
     ∧ (fastPath e = false → ∀ d ∈ e.dir, ∀ a, d.isData = true → d.value = some a → skipped d.name = false →
         (d.name == Gen.Vinegar.argsName) = false → dumpable a.val = true → o.get d.name = some a.val)
     ∧ (fastPath e = false →
-        o.get Gen.Vinegar.remoteTbAttr = some (.str (if s.includeTb then e.tbText else Gen.Vinegar.tracebackDenied)))
+        o.get Gen.Vinegar.remoteTbAttr = some (.str (tbShown s e)))
     ∧ (fastPath e = false →
         o.get Gen.Vinegar.versionAttr
           = some (.str (if s.includeVer then Gen.Vinegar.versionString else Gen.Vinegar.versionDenied)))
@@ -41,20 +44,28 @@ def Faithful (s : SendCfg) (e : ExcRec) (o : ExcObj) : Prop :=
 def C09_statement : Prop :=
   ∀ (s : SendCfg) (r : RecvCfg) (env : Env) (e : ExcRec) (nn : Bool),
     BuiltinRec e → Known env e.cls.name nn → Writable env (.real (.str e.cls.modname) e.cls.name) e →
-    ∃ o, requesterSees (loadExc r env (dumpExc s e)) = .raised o ∧ Faithful s e o
+    ∃ p, dumpExc s e = .ok p ∧ ∃ o, requesterSees (loadExc r env p) = .raised o ∧ Faithful s e o
+
+/-- "when, and only when": withheld -> the marker, whatever the traceback; allowed and formattable -> the text itself -/
+theorem traceback_iff_allowed (s : SendCfg) (e : ExcRec) :
+    (s.includeTb = false → tbShown s e = Gen.Vinegar.tracebackDenied)
+      ∧ (∀ t, s.includeTb = true → e.tbText = .ok t → tbShown s e = t) := by
+  constructor
+  · intro h; simp [tbShown, h]
+  · intro t h ht; simp [tbShown, h, ht]
 
 /-! ### built-in classes -/
 
 /-- the bare-StopIteration path: the marker travels, the requester sees `raise StopIteration` -/
 theorem stopiteration_bare (s : SendCfg) (r : RecvCfg) (env : Env) (e : ExcRec) (hf : fastPath e = true) :
-    dumpExc s e = .int Gen.Vinegar.excStopIteration
-      ∧ requesterSees (loadExc r env (dumpExc s e)) = .raised ⟨builtinStopIteration, [], []⟩
-      ∧ (loadExc r env (dumpExc s e)).events = []
+    dumpExc s e = .ok (.int Gen.Vinegar.excStopIteration)
+      ∧ requesterSees (loadExc r env (.int Gen.Vinegar.excStopIteration)) = .raised ⟨builtinStopIteration, [], []⟩
+      ∧ (loadExc r env (.int Gen.Vinegar.excStopIteration)).events = []
       ∧ isStopIteration e.cls = true ∧ e.args = [] := by
-  have hd : dumpExc s e = .int Gen.Vinegar.excStopIteration := by simp [dumpExc, hf]
+  have hd : dumpExc s e = .ok (.int Gen.Vinegar.excStopIteration) := by simp [dumpExc, hf]
   have hl : loadExc r env (.int Gen.Vinegar.excStopIteration) = ⟨[], .ok .stopIterationClass⟩ := by
     simp [loadExc, isStopMarker]
-  refine ⟨hd, by rw [hd, hl]; rfl, by rw [hd, hl], ?_, ?_⟩
+  refine ⟨hd, by rw [hl]; rfl, by rw [hl], ?_, ?_⟩
   · simp only [fastPath, Bool.and_eq_true] at hf; exact hf.1.2
   · simp only [fastPath, gen_fastPath_shape.2, Bool.and_eq_true, Bool.not_true, Bool.false_or] at hf
     simpa using hf.2
@@ -66,26 +77,27 @@ gate and one `__new__`. -/
 theorem builtin_fidelity (s : SendCfg) (r : RecvCfg) (env : Env) (e : ExcRec)
     (hb : BuiltinRec e) (hk : Known env e.cls.name false)
     (hw : Writable env (.real (.str e.cls.modname) e.cls.name) e) (hnf : fastPath e = false) :
-    loadExc r env (dumpExc s e)
+    dumpExc s e = .ok (recordPayload s e (.str (tbShown s e)))
+      ∧ loadExc r env (recordPayload s e (.str (tbShown s e)))
         = ⟨[.new (.real (.str e.cls.modname) e.cls.name)],
            .ok (.exc (received s e (.real (.str e.cls.modname) e.cls.name)))⟩
       ∧ Faithful s e (received s e (.real (.str e.cls.modname) e.cls.name)) := by
-  obtain ⟨_, hmod, hargs1, hnodup⟩ := hb
+  obtain ⟨_, hmod, hargs1, hnodup, hwalk⟩ := hb
   have hres := resolveClass_builtin r env e.cls.name false hk
   rw [← hmod] at hres
-  have hload := loadExc_record s r env e _ false hnf hres
+  have hload := loadExc_record s r env e _ false (.str (tbShown s e)) hres
   rw [instantiate_ok env _ _ _ _ _ _ (build_record env s e _ hw)] at hload
   have hloaded : env.loaded (.str e.cls.modname) = true := by rw [hmod]; exact hk.1
   have hev : importEvents r env (.str e.cls.modname) = [] := by simp [importEvents, importAttempted, hloaded]
   rw [hev] at hload
-  refine ⟨by simpa using hload, ?_⟩
+  refine ⟨dumpExc_ok s e hnf hwalk, by simpa using hload, ?_⟩
   refine ⟨rfl, ?_, ?_, ?_, ?_⟩
   · simp [received, walkArgs_once e e.dir hargs1]
   · intro _ d hd a _ hv hs ha hdump
     rw [received_get_attr s e _ d a hnodup hd hv hs ha]
     simp [sendable, hdump]
   · intro _
-    rw [received_get_tb]; rfl
+    rw [received_get_tb]
   · intro _
     rw [received_get_ver s e _ hnodup]; rfl
 
@@ -93,12 +105,12 @@ theorem builtin_fidelity (s : SendCfg) (r : RecvCfg) (env : Env) (e : ExcRec)
 theorem C09_partial (s : SendCfg) (r : RecvCfg) (env : Env) (e : ExcRec)
     (hb : BuiltinRec e) (hk : Known env e.cls.name false)
     (hw : Writable env (.real (.str e.cls.modname) e.cls.name) e) :
-    ∃ o, requesterSees (loadExc r env (dumpExc s e)) = .raised o ∧ Faithful s e o := by
+    ∃ p, dumpExc s e = .ok p ∧ ∃ o, requesterSees (loadExc r env p) = .raised o ∧ Faithful s e o := by
   cases hf : fastPath e
-  · obtain ⟨hl, hfaith⟩ := builtin_fidelity s r env e hb hk hw hf
-    exact ⟨_, by rw [hl]; rfl, hfaith⟩
-  · obtain ⟨_, hsees, _, hstop, hargs⟩ := stopiteration_bare s r env e hf
-    refine ⟨_, hsees, ?_, ?_, ?_, ?_, ?_⟩
+  · obtain ⟨hd, hl, hfaith⟩ := builtin_fidelity s r env e hb hk hw hf
+    exact ⟨_, hd, _, by rw [hl]; rfl, hfaith⟩
+  · obtain ⟨hd, hsees, _, hstop, hargs⟩ := stopiteration_bare s r env e hf
+    refine ⟨_, hd, _, hsees, ?_, ?_, ?_, ?_, ?_⟩
     · have hn : e.cls.name = stopIterationName := by
         simp only [isStopIteration, Bool.and_eq_true] at hstop; simpa using hstop.2
       simp [builtinStopIteration, hb.2.1, hn]
@@ -110,12 +122,13 @@ theorem C09_partial (s : SendCfg) (r : RecvCfg) (env : Env) (e : ExcRec)
 /-- a class whose `__new__` needs arguments: the load raises TypeError — nothing surfaces as that class -/
 theorem needsArgs_raises (s : SendCfg) (r : RecvCfg) (env : Env) (e : ExcRec)
     (hb : BuiltinRec e) (hk : Known env e.cls.name true) (hnf : fastPath e = false) :
-    (loadExc r env (dumpExc s e)).out = .error .typeError
-      ∧ requesterSees (loadExc r env (dumpExc s e)) = .error .typeError := by
+    dumpExc s e = .ok (recordPayload s e (.str (tbShown s e)))
+      ∧ (loadExc r env (recordPayload s e (.str (tbShown s e)))).out = .error .typeError
+      ∧ requesterSees (loadExc r env (recordPayload s e (.str (tbShown s e)))) = .error .typeError := by
   have hres := resolveClass_builtin r env e.cls.name true hk
   rw [← hb.2.1] at hres
-  rw [loadExc_record s r env e _ true hnf hres, instantiate_needsArgs]
-  exact ⟨rfl, rfl⟩
+  rw [loadExc_record s r env e _ true _ hres, instantiate_needsArgs]
+  exact ⟨dumpExc_ok s e hnf hb.2.2.2.2, rfl, rfl⟩
 
 /-! ### the witness of the known finding -/
 
@@ -132,22 +145,26 @@ def groupRec : ExcRec :=
   { cls := ⟨b, groupName, .builtin⟩,
     args := [⟨.str [109], [39, 109, 39]⟩, ⟨.other 0, [91, 86, 40, 49, 41, 93]⟩],
     dir := [⟨Gen.Vinegar.argsName, none, true⟩, ⟨[109, 101, 115, 115, 97, 103, 101], some ⟨.str [109], []⟩, true⟩],
-    tbText := [116, 98] }
+    tbText := .ok [116, 98], walkRaises := none }
 
-theorem groupRec_builtin : BuiltinRec groupRec := ⟨rfl, rfl, by decide, by decide⟩
+theorem groupRec_builtin : BuiltinRec groupRec := ⟨rfl, rfl, by decide, by decide, rfl⟩
 
 /-- **C09_counterexample_group**: concretely, under default switches on both sides the receiver's `load` of a remote
 `ExceptionGroup` raises TypeError (out of `serve()`), so the full statement is false of the pinned code. -/
 theorem C09_counterexample_group :
-    requesterSees (loadExc defaultRecvCfg groupEnv (dumpExc defaultSendCfg groupRec)) = .error .typeError
+    (∃ p, dumpExc defaultSendCfg groupRec = .ok p
+        ∧ requesterSees (loadExc defaultRecvCfg groupEnv p) = .error .typeError)
       ∧ ¬ C09_statement := by
   have hk : Known groupEnv groupRec.cls.name true := ⟨rfl, rfl, rfl⟩
   have hnf : fastPath groupRec = false := by decide
-  refine ⟨(needsArgs_raises _ _ _ _ groupRec_builtin hk hnf).2, ?_⟩
+  obtain ⟨hd, _, hsees⟩ := needsArgs_raises defaultSendCfg defaultRecvCfg groupEnv groupRec groupRec_builtin hk hnf
+  refine ⟨⟨_, hd, hsees⟩, ?_⟩
   intro hst
-  obtain ⟨o, ho, _⟩ := hst defaultSendCfg defaultRecvCfg groupEnv groupRec true groupRec_builtin hk
+  obtain ⟨p, hp, o, ho, _⟩ := hst defaultSendCfg defaultRecvCfg groupEnv groupRec true groupRec_builtin hk
     ⟨fun _ _ => rfl, fun _ => rfl⟩
-  rw [(needsArgs_raises _ _ _ _ groupRec_builtin hk hnf).2] at ho
+  rw [hd] at hp
+  cases hp
+  rw [hsees] at ho
   cases ho
 
 /-! ### classes that are not built in -/
@@ -161,19 +178,21 @@ and the module is not loaded. -/
 theorem custom_gate (s : SendCfg) (r : RecvCfg) (env : Env) (e : ExcRec)
     (hc : e.cls.kind = .custom) (hm : e.cls.modname ≠ Gen.Vinegar.exceptionsModule)
     (hname : typeNameCheck (e.cls.modname ++ [46] ++ e.cls.name) = .ok ())
-    (hnn : env.modAttr (.str e.cls.modname) e.cls.name ≠ .excClass true)
+    (hnn : env.modAttr (.str e.cls.modname) e.cls.name ≠ .excClass true) (hwalk : e.walkRaises = none)
     (hw : Writable env (customClass r env e.cls.modname e.cls.name) e) :
-    loadExc r env (dumpExc s e)
+    dumpExc s e = .ok (recordPayload s e (.str (tbShown s e)))
+      ∧ loadExc r env (recordPayload s e (.str (tbShown s e)))
       = ⟨importEvents r env (.str e.cls.modname) ++ [.new (customClass r env e.cls.modname e.cls.name)],
          .ok (.exc (received s e (customClass r env e.cls.modname e.cls.name)))⟩ := by
   have hnf : fastPath e = false := by simp [fastPath, isStopIteration, hc]
+  refine ⟨dumpExc_ok s e hnf hwalk, ?_⟩
   obtain ⟨nn, hres, hnn'⟩ := resolveClass_custom r env e.cls.modname e.cls.name hm hname
   have : nn = false := by
     cases nn
     · rfl
     · exact absurd (hnn' rfl).2 hnn
   subst this
-  rw [loadExc_record s r env e _ false hnf hres, instantiate_ok env _ _ _ _ _ _ (build_record env s e _ hw)]
+  rw [loadExc_record s r env e _ false _ hres, instantiate_ok env _ _ _ _ _ _ (build_record env s e _ hw)]
 
 /-- not allowed to instantiate custom classes: always the generic stand-in named after the original -/
 theorem custom_denied (r : RecvCfg) (env : Env) (m c : Str) (h : r.instCustom = false) :
@@ -191,6 +210,41 @@ theorem custom_rebuilt (r : RecvCfg) (env : Env) (m c : Str) (nn : Bool) (h : r.
     (ha : env.loaded (.str m) = true ∨ (r.importCustom = true ∧ env.importable (.str m) = true))
     (hk : env.modAttr (.str m) c = .excClass nn) : customClass r env m c = .real (.str m) c :=
   (customClass_real_iff r env m c).mpr ⟨h, (inModules_iff r env _).mpr ha, by simp [hk, ObjKind.isExc]⟩
+
+/-! ### an exception that cannot be dumped or put on the wire (`Connection._send_exception`) -/
+
+/-- when `dump` raises (a `repr()` that raises, ...) or brine refuses the payload (an int beyond the digit limit), the
+requester is still answered: with the fallback record — the class name and fixed texts, nothing of the exception's data.
+This is the one documented deviation from "same arguments": it applies only to arguments that cannot be serialized. -/
+theorem fallback_when_unserializable (s : SendCfg) (e : ExcRec) :
+    (∀ err, dumpExc s e = .error err → boxExc s e = .ok (fallbackPayload e))
+      ∧ (∀ p err, dumpExc s e = .ok p → Brine.dump p = .error err → boxExc s e = .ok (fallbackPayload e))
+      ∧ (∀ p bs, dumpExc s e = .ok p → Brine.dump p = .ok bs → boxExc s e = .ok p) :=
+  ⟨boxExc_dump_raises s e, fun p err => boxExc_wire_raises s e p err, fun p bs => boxExc_ok s e p bs⟩
+
+/-- the fallback record surfaces as the same built-in class, carries the note as its only argument and a FIXED text as
+traceback: it does not depend on the sender's switches at all, so it cannot disclose a traceback or a version -/
+theorem fallback_discloses_nothing (r : RecvCfg) (env : Env) (e : ExcRec) (hb : BuiltinRec e)
+    (hk : Known env e.cls.name false) :
+    loadExc r env (fallbackPayload e)
+      = ⟨[.new (.real (.str e.cls.modname) e.cls.name)], .ok (.exc (fallbackObj (.real (.str e.cls.modname) e.cls.name)))⟩
+      ∧ (fallbackObj (.real (.str e.cls.modname) e.cls.name)).get Gen.Vinegar.remoteTbAttr
+          = some (.str Gen.Vinegar.fallbackTb)
+      ∧ (fallbackObj (.real (.str e.cls.modname) e.cls.name)).get Gen.Vinegar.versionAttr = none := by
+  have hres := resolveClass_builtin r env e.cls.name false hk
+  rw [← hb.2.1] at hres
+  have hloaded : env.loaded (.str e.cls.modname) = true := by rw [hb.2.1]; exact hk.1
+  have hev : importEvents r env (.str e.cls.modname) = [] := by simp [importEvents, importAttempted, hloaded]
+  refine ⟨by rw [loadExc_fallback r env e _ hres, hev]; rfl, ?_, ?_⟩
+  · simp [fallbackObj, ExcObj.get, lookupAttr]
+  · have hne : (Gen.Vinegar.remoteTbAttr == Gen.Vinegar.versionAttr) = false := by decide
+    simp [fallbackObj, ExcObj.get, lookupAttr, hne]
+
+/-- a traceback the traceback module cannot format does not cost the exception anything else: `dump` succeeds (the
+repair of the lost SyntaxError arguments) -/
+theorem unformattable_traceback_still_dumps (s : SendCfg) (e : ExcRec) (err : Err) (hnf : fastPath e = false)
+    (hw : e.walkRaises = none) (_ht : e.tbText = .error err) : ∃ p, dumpExc s e = .ok p :=
+  ⟨_, dumpExc_ok s e hnf hw⟩
 
 /-! ### every payload, however crafted -/
 
@@ -280,6 +334,11 @@ theorem loader_calls_allowed :
 theorem fast_path_requires_no_args :
     Gen.Vinegar.stopFastPathExists = true ∧ Gen.Vinegar.stopFastPathRequiresNoArgs = true := gen_fastPath_shape
 
+/-- formatting the traceback is guarded in `dump`, `_send_exception` has its fallback, and the fallback's traceback
+field is a literal (generated from the AST: anything computed there fails the translation) -/
+theorem failure_paths_present : Gen.Vinegar.tbFormatGuarded = true ∧ Gen.Vinegar.fallbackExists = true :=
+  ⟨gen_tbFormatGuarded, gen_fallbackExists⟩
+
 /-- each parameter of `vinegar.dump` / `vinegar.load` is fed from the configuration key of the same name, and the two
 local re-raises are the ones modelled -/
 theorem config_keys_wired :
@@ -313,28 +372,39 @@ def sampleRec : ExcRec :=
             ⟨Gen.Vinegar.argsName, none, true⟩,
             ⟨[100, 101, 116, 97, 105, 108], some ⟨.int 3, [51]⟩, true⟩,
             ⟨[119, 105, 116, 104, 95, 116, 114, 97, 99, 101, 98, 97, 99, 107], some ⟨.other 99, [60, 119, 62]⟩, false⟩],
-    tbText := [84, 114, 97, 99, 101] }
+    tbText := .ok [84, 114, 97, 99, 101], walkRaises := none }
 def sampleEnv : Env :=
   { loaded := fun m => isBuiltinsName m, importable := fun _ => false,
     modAttr := fun m _ => if isBuiltinsName m then .excClass false else .missing,
     builtinAttr := fun _ => .excClass false, fmtName := fun _ _ => .error .notModelled, setattr := fun _ _ _ => .store }
 
-example : BuiltinRec sampleRec := ⟨rfl, rfl, by decide, by decide⟩
+example : BuiltinRec sampleRec := ⟨rfl, rfl, by decide, by decide, rfl⟩
 example : Known sampleEnv sampleRec.cls.name false := ⟨rfl, rfl, rfl⟩
 example : Writable sampleEnv (.real (.str sampleRec.cls.modname) sampleRec.cls.name) sampleRec :=
   ⟨fun _ _ => rfl, fun _ => rfl⟩
 /-- the record above really goes the long way and comes back with `detail = 3`, args `('k', '[1]')`, the marker
 instead of the traceback when the sender withholds it -/
-example : requesterSees (loadExc ⟨false, false, false⟩ sampleEnv (dumpExc ⟨false, true, false, true⟩ sampleRec))
+example : dumpExc ⟨false, true, false, true⟩ sampleRec
+    = .ok (recordPayload ⟨false, true, false, true⟩ sampleRec (.str Gen.Vinegar.tracebackDenied)) := by rfl
+example : requesterSees (loadExc ⟨false, false, false⟩ sampleEnv
+      (recordPayload ⟨false, true, false, true⟩ sampleRec (.str Gen.Vinegar.tracebackDenied)))
     = .raised ⟨.real (.str b) [75, 101, 121, 69, 114, 114, 111, 114], [.str [107], .str [91, 49, 93]],
         [(Gen.Vinegar.remoteTbAttr, .str Gen.Vinegar.tracebackDenied),
          (Gen.Vinegar.versionAttr, .str Gen.Vinegar.versionString),
          ([100, 101, 116, 97, 105, 108], .int 3),
          ([97, 100, 100, 95, 110, 111, 116, 101], .str [60, 109, 62])]⟩ := by rfl
+/-- the traceback module fails on the exception: it is still dumped, with the "unavailable" literal -/
+example : dumpExc defaultSendCfg { sampleRec with tbText := .error .attributeError }
+    = .ok (recordPayload defaultSendCfg sampleRec (.str Gen.Vinegar.tracebackUnavailable)) := by rfl
+/-- an argument whose repr() raises: `dump` raises, the fallback record travels and discloses nothing -/
+example : boxExc ⟨true, true, false, true⟩ { sampleRec with walkRaises := some .valueError }
+    = .ok (fallbackPayload sampleRec) := by rfl
 /-- a custom record under a receiver that may instantiate but not import, module not loaded: generic stand-in `m.E` -/
 example : (loadExc ⟨false, true, false⟩ sampleEnv
-      (dumpExc defaultSendCfg { sampleRec with cls := ⟨[109], [69], .custom⟩ })).out
-    = .ok (.exc (received defaultSendCfg { sampleRec with cls := ⟨[109], [69], .custom⟩ } (.generic [109, 46, 69]))) := by
+      (recordPayload defaultSendCfg { sampleRec with cls := ⟨[109], [69], .custom⟩ } (.str [116]))).out
+    = .ok (.exc ⟨.generic [109, 46, 69], [.str [107], .str [91, 49, 93]],
+        [(Gen.Vinegar.remoteTbAttr, .str [116]), (Gen.Vinegar.versionAttr, .str Gen.Vinegar.versionString),
+         ([100, 101, 116, 97, 105, 108], .int 3), ([97, 100, 100, 95, 110, 111, 116, 101], .str [60, 109, 62])]⟩) := by
   rfl
 /-- crafted payloads: `True` is the StopIteration marker; a 3-tuple is a ValueError; `("builtins","int")` is generic -/
 example : (loadExc defaultRecvCfg sampleEnv (.bool true)).out = .ok .stopIterationClass := by rfl
